@@ -639,6 +639,8 @@ class PyEval:
             return ("external", base[1] + "." + n.attr)
         if isinstance(base, range) and n.attr in ("start", "stop", "step"):
             return getattr(base, n.attr)
+        if getattr(base, "_sa_host", False) and not n.attr.startswith("_") and hasattr(base, n.attr):
+            return getattr(base, n.attr)  # abstract host object supplied by a check (its methods are the transfer functions)
         raise NotConst(f"attribute .{n.attr} on {type(base).__name__} at {self.mod.rel}:{n.lineno}")
 
     def e_Subscript(self, n: ast.Subscript) -> Any:
@@ -742,7 +744,7 @@ class PyEval:
         elif isinstance(target, ast.Subscript):
             base = self.eval(target.value)
             idx = self.eval(target.slice)
-            if not isinstance(base, (dict, list)):
+            if not isinstance(base, (dict, list)) and not getattr(base, "_sa_host", False):
                 raise NotConst("subscript store on non-container")
             base[idx] = value
         else:
